@@ -828,6 +828,31 @@ var ribSmallSpecs = []fnSpec{
 
 var chkSpecs = []fnSpec{
 	{
+		file: "chk/chk.go", goName: "HasResult", callAs: "HasResult§", leanName: "hasResult", tbFatal: true,
+		params: []param{
+			{goName: "t", goType: "testing.TB", lean: "t", kd: kStr, skip: true},
+			{goName: "res", goType: "[]*client.OpResult", lean: "res", kd: kind{k: "list", s: "COpResult", optElems: true}},
+			{goName: "want", goType: "*client.OpResult", lean: "want", kd: kPtr("COpResult"), nonnil: true},
+			{goName: "opt", goType: "...resultOpt", lean: "opt", kd: kStr, skip: true},
+		},
+		goRets: "", rets: []string{"bool"},
+		oracleParams: []param{
+			{goName: "§ignoreOpID", lean: "ignoreOpID", kd: kBool},
+			{goName: "§includeServerError", lean: "includeServerError", kd: kBool},
+			// cmp.Equal(r, want, IgnoreFields(OpResult{}, fields...), protocmp.Transform())
+			{goName: "§cmpEqual", lean: "cmpEqual", kd: kind{k: "fun", t: []kind{kBool, kPtr("COpResult"), kPtr("COpResult"), kind{k: "list", s: "String"}}}},
+		},
+		oracles: map[string]oracle{
+			"hasIgnoreOperationID":  {results: []string{"§ignoreOpID"}},
+			"hasIncludeServerError": {results: []string{"§includeServerError"}},
+			// the option list is represented by the list of ignored field names it was built from
+			"cmpopts.IgnoreFields": {results: []string{"$1"}},
+			"protocmp.Transform":   {results: []string{}},
+			"cmp.Equal":            {results: []string{"§cmpEqual@0,1,2"}},
+		},
+		typeMap: map[string]string{"client.OpResult": "COpResult"},
+	},
+	{
 		file: "chk/chk.go", goName: "HasResultsCache", callAs: "HasResultsCache", leanName: "hasResultsCache", tbFatal: true, joins: true,
 		params: []param{
 			{goName: "t", goType: "testing.TB", lean: "t", kd: kStr, skip: true},
